@@ -323,6 +323,23 @@ fn main() {
             bases.sort();
             bases.dedup();
         }
+        // from_u32 arguments beyond the range of the raw type (only the low bits count)
+        if bits < 31 {
+            for b in [total, 3 * total, total << 1 | (total >> 1), 1 << 16, 1 << 24, 0x5555_5500, 0x7fff_fe00] {
+                let b = (b.min(0x7fff_fe00) as u32) & !0xFF;
+                if (b as u64) >= total {
+                    bases.push(b);
+                }
+            }
+            if total < 256 {
+                // sub-byte raws live in a u8: every other value of the storage type, and beyond
+                let t = total as u32;
+                bases.extend((1..256 / t).map(|c| c * t));
+                bases.extend([256, 256 + t, 0x100_0000 + 3 * t, 0x7fff_ff00 + 5 * t]);
+            }
+            bases.sort();
+            bases.dedup();
+        }
         emit_rawrows(&mut rec, ty, n, bases);
     }
     rec.finish(json!({}));
